@@ -97,8 +97,8 @@ def replay(ctx: Ctx, init_state: dict[str, Any], hist: list[tuple], final: dict[
     return True
 
 
-def run_mc(ctx: Ctx, init: str, depth: int, col: Collector, rng) -> dict[str, Any]:
-    cfg = MC_CFG.format(nops=7, nblk=4, nval=6, d=depth, init=init, emit="INVARIANT Emit")
+def run_mc(ctx: Ctx, init: str, depth: int, col: Collector, rng, size=(7, 4, 6)) -> dict[str, Any]:
+    cfg = MC_CFG.format(nops=size[0], nblk=size[1], nval=size[2], d=depth, init=init, emit="INVARIANT Emit")
     r = tlc.run("ir/IRGraphMC.tla", cfg_text=cfg, coverage=True, timeout=3000, xmx="8g")
     if r.violated:
         raise tlc.TLCMachineryError(f"IRGraphMC violates {r.violated}\n" + "\n".join(r.out.splitlines()[-30:]))
@@ -180,11 +180,12 @@ def run(ctx: Ctx):
     q = ctx.quick
     rng = ctx.rng("routes")
     col = Collector()
-    depth = 2 if q else 3
+    # every history of <= 2 calls (depth 3 is ~37M histories from init A: out of reach; the thorough tier widens the
+    # universe instead - more operations / blocks / values to pick as arguments - and walks deeper by simulation)
     for init in ("A", "B"):
-        run_mc(ctx, init, depth if init == "A" or not q else 2, col, rng)
+        run_mc(ctx, init, 2, col, rng, size=(7, 4, 6) if q else (8, 5, 7))
     for init in ("A", "B", "E"):
-        run_sim(ctx, init, 400 if q else 6000, 30 if init != "E" else 40, col, rng, ctx.seed)
+        run_sim(ctx, init, 400 if q else 12000, 30 if init != "E" else 40, col, rng, ctx.seed)
     from . import c01_c2s
 
     c01_c2s.random_histories(ctx, col, n=60 if q else 1500, length=120 if q else 300)
